@@ -87,4 +87,22 @@ var plans = map[string]Plan{
 			{Name: "fuzz", Pkg: "./checks/c03", Fuzz: "FuzzReadValue", Shards: [2]int{0, 1}, FuzzTime: [2]time.Duration{0, 120 * time.Second}, Weight: 16},
 		},
 	},
+	"C12": {
+		Level: "exploration",
+		Rule: "cases: (a) envelopes (name 1..2^16 bytes incl. non-UTF-8 and ':'-multiplexed, type 0..127, seqid at int32 boundaries, random struct body) under a drawn segmentation; (b) requests in the three framings with matching / wrong message type, two drawn segmentations (often with a 1-byte first read) and a reply to send back; (c) arbitrary / truncated / header-scrambled / body-mutated request bytes; (d) a complete grid of first-read sizes. " +
+			"Oracle: writers == reference envelope bytes; readers invert; DecodeRequest and ReadRequest classify as sent, agree with each other, ReadRequest is segmentation-independent and accepts whatever DecodeRequest accepts; replies parse (reference decoder) as the request's framing with echoed name/seqid. " +
+			"Non-trivial: non-empty body, or wrong-type envelope, or (for byte cases) accepted by at least one API. Distinct: SHA-256 of the request/envelope bytes (+expected type).",
+		Assumptions: []string{
+			"internal/refcodec envelope/legacy-envelope layout is a correct reading of the Thrift spec",
+			"'accepts' for DecodeRequest includes forcing the lazily decoded body",
+			"internal/envelope, internal/multiplex are reached through the verif-tagged re-export package go.uber.org/thriftrw/verifhook",
+		},
+		Units: []Unit{
+			{Name: "envelope", Pkg: "./checks/c12", Run: "^TestEnvelopeRoundTrip$", Rapid: true, Shards: [2]int{4, 8}, Checks: [2]int{3000, 40000}},
+			{Name: "request", Pkg: "./checks/c12", Run: "^TestRequests$", Rapid: true, Shards: [2]int{6, 12}, Checks: [2]int{3000, 30000}},
+			{Name: "request-bytes", Pkg: "./checks/c12", Run: "^TestRequestBytes$", Rapid: true, Shards: [2]int{4, 12}, Checks: [2]int{4000, 30000}},
+			{Name: "first-read-grid", Pkg: "./checks/c12", Run: "^TestFirstReadGrid$", Shards: [2]int{1, 1}},
+			{Name: "server-client", Pkg: "./checks/c12", Run: "^TestServerClient$", Rapid: true, Shards: [2]int{2, 8}, Checks: [2]int{3000, 25000}},
+		},
+	},
 }
